@@ -690,8 +690,8 @@ VMLoop:
 			handler.returnTo = vm.ip
 			// save current sp to come back to same position
 			handler.sp = vm.sp
-			// remove current error if any
-			vm.curFrame.errHandlers.err = nil
+			// remove the error pending for this handler if any
+			handler.err = nil
 			// set ip to finally's position
 			vm.ip = pos - 1
 		case OpUnary:
@@ -830,9 +830,9 @@ func (vm *VM) xOpSetupCatch() {
 		hdl := errHandlers.last()
 		hdl.catch = 0
 
-		if errHandlers.err != nil {
-			value = errHandlers.err
-			errHandlers.err = nil
+		if hdl.err != nil {
+			value = hdl.err
+			hdl.err = nil
 		}
 	}
 
@@ -858,10 +858,10 @@ func (vm *VM) xOpThrow() error {
 	switch op {
 	case 0: // system
 		errHandlers := vm.curFrame.errHandlers
-		if errHandlers.hasError() {
+		if pending := errHandlers.pendingError(); pending != nil {
 			errHandlers.pop()
 			// do not put position info to error for re-throw after finally.
-			if err := vm.throw(errHandlers.err, true); err != nil {
+			if err := vm.throw(pending, true); err != nil {
 				return err
 			}
 		} else if pos := errHandlers.hasReturnTo(); pos > 0 {
@@ -877,6 +877,9 @@ func (vm *VM) xOpThrow() error {
 			}
 			vm.sp = handler.sp
 			vm.ip = pos - 1
+		} else {
+			// the try statement is complete, its handler must not outlive it
+			errHandlers.pop()
 		}
 	case 1: // user
 		obj := vm.stack[vm.sp-1]
@@ -951,8 +954,8 @@ func (vm *VM) throw(err *RuntimeError, noTrace bool) error {
 }
 
 func (vm *VM) handleThrownError(frame *frame, err *RuntimeError) error {
-	frame.errHandlers.err = err
 	handler := frame.errHandlers.last()
+	handler.err = err
 
 	// if we have catch>0 goto catch else follow finally (one of them must be set)
 	if handler.catch > 0 {
@@ -1431,15 +1434,21 @@ type errHandler struct {
 	catch    int
 	finally  int
 	returnTo int
+	// err is the error propagating through the catch or finally block of
+	// this handler's try statement.
+	err *RuntimeError
 }
 
 type errHandlers struct {
 	handlers []errHandler
-	err      *RuntimeError
 }
 
-func (t *errHandlers) hasError() bool {
-	return t != nil && t.err != nil
+// pendingError returns the error pending for the innermost try statement.
+func (t *errHandlers) pendingError() *RuntimeError {
+	if t == nil || len(t.handlers) == 0 {
+		return nil
+	}
+	return t.handlers[len(t.handlers)-1].err
 }
 
 func (t *errHandlers) pop() bool {
